@@ -88,7 +88,7 @@ Record config := mk_config {
 Inductive lerr :=
 | EDeserialize | EAddrInUse | EMissing | EIncompatible | EWrongFrontendProtocol | EInvalidFrontendConfig
 | EInvalidAlpn | EDisableHttp11 | EBufferSize | EHstsEnabledRequired | EHstsOnPlainHttp | EFileRead
-| EInvalidHealthCheck.
+| EInvalidHealthCheck | EDuplicateFrontend | EDuplicateBackend.
 
 Inductive res (A : Type) := Ok (a : A) | Err (e : lerr).
 Arguments Ok {A} a.
@@ -124,6 +124,24 @@ Fixpoint dec_aux (fuel : nat) (n : N) (acc : bytes) : bytes :=
            if (n <? 10)%N then d :: acc else dec_aux f (n / 10)%N (d :: acc)
   end.
 Definition dec_bytes (n : N) : bytes := dec_aux 40 n [].
+
+(** map keys, as token lists *)
+Definition lkey_of (kind : Z) (addr : bytes) : list tok := [TN kind; TB addr].
+Definition lkey (l : lst) : list tok := lkey_of (l_kind l) (l_addr l).
+Definition ckey (c : clu) : list tok := [TB (c_id c)].
+Definition fkey (f : front) : list tok :=
+  [tn_bool (f_https f); TB (f_addr f); TB (f_host f); TN (f_kind f); TB (f_path f); ob (f_method f)].
+Definition tkey (t : tfront) : list tok := [tn_bool (t_udp t); TB (t_cluster t); TB (t_addr t)] ++ t_tags t.
+Definition bkey (b : backend) : list tok := [TB (b_cluster b); TB (b_id b); TB (b_addr b)].
+Definition certkey (c : bytes * Z) : list tok := [TB (fst c); TN (snd c)].
+
+Definition mem_key (k : list tok) (l : list (list tok)) : bool := existsb (toks_eqb k) l.
+
+Fixpoint nodup_keys (l : list (list tok)) : bool :=
+  match l with
+  | [] => true
+  | k :: l' => negb (existsb (toks_eqb k) l') && nodup_keys l'
+  end.
 
 (** * The loader *)
 
@@ -184,7 +202,8 @@ Record lstate := mk_lstate {
   ls_known : list (bytes * Z);          (* known_addresses *)
   ls_expect : list bytes;               (* expect_proxy_addresses *)
   ls_http : list lst; ls_https : list lst; ls_tcp : list lst; ls_udp : list lst;
-  ls_clusters : list ccfg }.
+  ls_clusters : list ccfg;
+  ls_routes : list (list tok) }.          (* known_routes of populate_clusters *)
 
 Definition known_proto (st : lstate) (a : bytes) : option Z :=
   match find (fun p => bytes_eqb (fst p) a) (ls_known st) with
@@ -194,10 +213,16 @@ Definition known_proto (st : lstate) (a : bytes) : option Z :=
 
 Definition push_listener (st : lstate) (l : lst) : lstate :=
   let k := (l_addr l, l_kind l) :: ls_known st in
-  if l_kind l =? 0 then mk_lstate k (ls_expect st) (ls_http st ++ [l]) (ls_https st) (ls_tcp st) (ls_udp st) (ls_clusters st)
-  else if l_kind l =? 1 then mk_lstate k (ls_expect st) (ls_http st) (ls_https st ++ [l]) (ls_tcp st) (ls_udp st) (ls_clusters st)
-  else if l_kind l =? 2 then mk_lstate k (ls_expect st) (ls_http st) (ls_https st) (ls_tcp st ++ [l]) (ls_udp st) (ls_clusters st)
-  else mk_lstate k (ls_expect st) (ls_http st) (ls_https st) (ls_tcp st) (ls_udp st ++ [l]) (ls_clusters st).
+  if l_kind l =? 0 then mk_lstate k (ls_expect st) (ls_http st ++ [l]) (ls_https st) (ls_tcp st) (ls_udp st) (ls_clusters st) (ls_routes st)
+  else if l_kind l =? 1 then mk_lstate k (ls_expect st) (ls_http st) (ls_https st ++ [l]) (ls_tcp st) (ls_udp st) (ls_clusters st) (ls_routes st)
+  else if l_kind l =? 2 then mk_lstate k (ls_expect st) (ls_http st) (ls_https st) (ls_tcp st ++ [l]) (ls_udp st) (ls_clusters st) (ls_routes st)
+  else mk_lstate k (ls_expect st) (ls_http st) (ls_https st) (ls_tcp st) (ls_udp st ++ [l]) (ls_clusters st) (ls_routes st).
+
+Definition add_expect (st : lstate) (a : bytes) : lstate :=
+  mk_lstate (ls_known st) (a :: ls_expect st) (ls_http st) (ls_https st) (ls_tcp st) (ls_udp st) (ls_clusters st) (ls_routes st).
+
+Definition add_route (st : lstate) (k : list tok) : lstate :=
+  mk_lstate (ls_known st) (ls_expect st) (ls_http st) (ls_https st) (ls_tcp st) (ls_udp st) (ls_clusters st) (ls_routes st ++ [k]).
 
 (** [ConfigBuilder::populate_listeners] *)
 Fixpoint populate_listeners (d : decl) (ls : list ldecl) (st : lstate) : res lstate :=
@@ -211,35 +236,31 @@ Fixpoint populate_listeners (d : decl) (ls : list ldecl) (st : lstate) : res lst
          | Err e => Err e
          | Ok b =>
            let st1 := push_listener st b in
-           let st2 := if ld_expect l =? 1
-                      then mk_lstate (ls_known st1) (ld_addr l :: ls_expect st1) (ls_http st1) (ls_https st1) (ls_tcp st1) (ls_udp st1) (ls_clusters st1)
-                      else st1 in
+           let st2 := if ld_expect l =? 1 then add_expect st1 (ld_addr l) else st1 in
            populate_listeners d ls' st2
          end
   end.
 
 (** [FileClusterConfig::to_cluster_config], TCP arm: the expect_proxy agreement
-    check comes before [to_tcp_front] of the same frontend *)
-Fixpoint tcp_fronts_conv (expects : list bytes) (has : option bool) (cid : bytes) (fs : list fdecl)
+    check comes before [to_tcp_front] of the same frontend, the duplicate check after it *)
+Definition tkey0 (t : tfront) : list tok := [TB (t_cluster t); TB (t_addr t)] ++ t_tags t.
+
+Fixpoint tcp_fronts_conv (expects : list bytes) (has : option bool) (cid : bytes) (seen : list (list tok)) (fs : list fdecl)
   : res (list tfront * option bool) :=
   match fs with
   | [] => Ok ([], has)
   | f :: fs' =>
     let e := memb (fd_addr f) expects in
-    match has with
-    | Some h => if Bool.eqb h e then
-                  if is_some (fd_host f) || is_some (fd_path f) || negb (fd_cert f =? -1) then Err EInvalidFrontendConfig
-                  else match tcp_fronts_conv expects has cid fs' with
-                       | Err x => Err x
-                       | Ok (ts, h') => Ok (mk_tfront false cid (fd_addr f) (fd_tags f) :: ts, h')
-                       end
-                else Err EIncompatible
-    | None => if is_some (fd_host f) || is_some (fd_path f) || negb (fd_cert f =? -1) then Err EInvalidFrontendConfig
-              else match tcp_fronts_conv expects (Some e) cid fs' with
-                   | Err x => Err x
-                   | Ok (ts, h') => Ok (mk_tfront false cid (fd_addr f) (fd_tags f) :: ts, h')
-                   end
-    end
+    let agree := match has with Some h => Bool.eqb h e | None => true end in
+    if negb agree then Err EIncompatible
+    else if is_some (fd_host f) || is_some (fd_path f) || negb (fd_cert f =? -1) then Err EInvalidFrontendConfig
+    else
+      let t := mk_tfront false cid (fd_addr f) (fd_tags f) in
+      if mem_key (tkey0 t) seen then Err EDuplicateFrontend
+      else match tcp_fronts_conv expects (match has with Some h => Some h | None => Some e end) cid (tkey0 t :: seen) fs' with
+           | Err x => Err x
+           | Ok (ts, h') => Ok (t :: ts, h')
+           end
   end.
 
 (** [FileClusterFrontendConfig::to_http_front]; the result keeps the declared
@@ -284,7 +305,9 @@ Fixpoint resolve_http (d : decl) (fs : list (front * Z * bool)) (st : lstate) : 
   | (f, cert, key) :: fs' =>
     let finish (cert' : Z) (key' : bool) (st' : lstate) :=
       let https := key' && negb (cert' =? -1) in
-      match resolve_http d fs' st' with
+      if mem_key (fkey (set_https f https)) (ls_routes st') then Err EDuplicateFrontend
+      else
+      match resolve_http d fs' (add_route st' (fkey (set_https f https))) with
       | Err e => Err e
       | Ok (xs, st'') => Ok ((set_https f https, if https then cert' else -1) :: xs, st'')
       end in
@@ -366,12 +389,13 @@ Definition hc_valid (c : clu) : bool :=
          end).
 
 Definition add_cluster_cfg (st : lstate) (c : ccfg) : lstate :=
-  mk_lstate (ls_known st) (ls_expect st) (ls_http st) (ls_https st) (ls_tcp st) (ls_udp st) (ls_clusters st ++ [c]).
+  mk_lstate (ls_known st) (ls_expect st) (ls_http st) (ls_https st) (ls_tcp st) (ls_udp st) (ls_clusters st ++ [c]) (ls_routes st).
 
 Definition populate_cluster (d : decl) (c : cdecl) (st : lstate) : res lstate :=
   if negb (hc_valid (build_clu c (-1))) then Err EInvalidHealthCheck
+  else if negb (nodup_keys (map bkey (build_backends (cd_id c) 0 (cd_backs c)))) then Err EDuplicateBackend
   else if cd_proto c =? 1 then
-    match tcp_fronts_conv (ls_expect st) None (cd_id c) (cd_fronts c) with
+    match tcp_fronts_conv (ls_expect st) None (cd_id c) [] (cd_fronts c) with
     | Err e => Err e
     | Ok (ts, has) =>
       let send := cd_send_proxy c =? 1 in
@@ -420,7 +444,7 @@ Definition has_h2 (l : lst) : bool := memb b_h2 (l_alpn l).
 Definition load_in (d : decl) (order : list cdecl) : res config :=
   if negb (parses d) then Err EDeserialize
   else if negb (nodup_bytes (map ld_addr (d_listeners d))) then Err EAddrInUse
-  else match populate_listeners d (d_listeners d) (mk_lstate [] [] [] [] [] [] []) with
+  else match populate_listeners d (d_listeners d) (mk_lstate [] [] [] [] [] [] [] []) with
        | Err e => Err e
        | Ok st =>
          match populate_clusters d order st with
@@ -490,16 +514,6 @@ Record state := mk_state {
 Definition empty_state : state := mk_state [] [] [] [] [] [].
 
 Inductive dres := DOk | DExists | DNotFound | DInvalid.
-
-(** map keys, as token lists *)
-Definition lkey_of (kind : Z) (addr : bytes) : list tok := [TN kind; TB addr].
-Definition lkey (l : lst) : list tok := lkey_of (l_kind l) (l_addr l).
-Definition ckey (c : clu) : list tok := [TB (c_id c)].
-Definition fkey (f : front) : list tok :=
-  [tn_bool (f_https f); TB (f_addr f); TB (f_host f); TN (f_kind f); TB (f_path f); ob (f_method f)].
-Definition tkey (t : tfront) : list tok := [tn_bool (t_udp t); TB (t_cluster t); TB (t_addr t)] ++ t_tags t.
-Definition bkey (b : backend) : list tok := [TB (b_cluster b); TB (b_id b); TB (b_addr b)].
-Definition certkey (c : bytes * Z) : list tok := [TB (fst c); TN (snd c)].
 
 Definition has {A} (key : A -> list tok) (k : list tok) (l : list A) : bool :=
   existsb (fun y => toks_eqb (key y) k) l.
